@@ -228,6 +228,18 @@ Definition make_ds (owner : name) (flags protocol alg : Z) (key : bytes) (dtype 
     do tag <- key_id_wire a kwire;
     Ok (wire ++ kwire, tag, a, dtype).
 
+(* make_ds with the owner given as text:  if isinstance(name, str): name = dns.name.from_text(name, origin)
+   (after the digest-type test; the key was constructed by the caller) *)
+Definition make_ds_text (text : bytes) (origin : option name) (flags protocol alg : Z) (key : bytes) (dtype : Z)
+  : res (bytes * Z * Z * Z) :=
+  do f <- as_uint 65536 flags;
+  do p <- as_uint 256 protocol;
+  do a <- as_uint 256 alg;
+  if negb ((dtype =? 1) || (dtype =? 2) || (dtype =? 4)) then Lib eUnsupportedAlgorithm
+  else
+    do owner <- from_text text origin;
+    make_ds owner f p a key dtype.
+
 (* ---------- nsec3_hash ---------- *)
 (* base64.b32encode: RFC 4648 alphabet, '=' padding *)
 Definition b32_std (v : Z) : Z := if v <? 26 then 65 + v else 24 + v.
@@ -543,7 +555,13 @@ Definition run_with (tbl : list entry) (c : obs) : obs :=
           obs_res B (do r <- mk_rrsig cov alg labels ottl exp inc tag signer sig;
                      make_rrsig_data tbl r rrname rdclass rdtype rdatas o)
       | _, _, _, _ => E eBadCase end
-  | L [I 4; L owner; I flags; I protocol; I alg; B key; I dtype] =>
+  | L [I 11; B text; o; I flags; I protocol; I alg; B key; I dtype; _] =>
+      match oname_of_obs o with
+      | Some o =>
+          obs_res (fun x => let '(inp, tag, a, d) := x in L [B inp; I tag; I a; I d; I 1])
+                  (make_ds_text text o flags protocol alg key dtype)
+      | None => E eBadCase end
+  | L [I 4; L owner; I flags; I protocol; I alg; B key; I dtype; _] =>
       match name_of_obs owner with
       | Some owner =>
           obs_res (fun x => let '(inp, tag, a, d) := x in L [B inp; I tag; I a; I d; I 1])
